@@ -1,0 +1,238 @@
+/* ANSI-C code produced by gperf version 3.1 */
+/* Command-line: /usr/bin/gperf -L ANSI-C --output-file evrrul-gp.c evrrul-gp.erf  */
+/* Computed positions: -k'3,5' */
+
+#if !((' ' == 32) && ('!' == 33) && ('"' == 34) && ('#' == 35) \
+      && ('%' == 37) && ('&' == 38) && ('\'' == 39) && ('(' == 40) \
+      && (')' == 41) && ('*' == 42) && ('+' == 43) && (',' == 44) \
+      && ('-' == 45) && ('.' == 46) && ('/' == 47) && ('0' == 48) \
+      && ('1' == 49) && ('2' == 50) && ('3' == 51) && ('4' == 52) \
+      && ('5' == 53) && ('6' == 54) && ('7' == 55) && ('8' == 56) \
+      && ('9' == 57) && (':' == 58) && (';' == 59) && ('<' == 60) \
+      && ('=' == 61) && ('>' == 62) && ('?' == 63) && ('A' == 65) \
+      && ('B' == 66) && ('C' == 67) && ('D' == 68) && ('E' == 69) \
+      && ('F' == 70) && ('G' == 71) && ('H' == 72) && ('I' == 73) \
+      && ('J' == 74) && ('K' == 75) && ('L' == 76) && ('M' == 77) \
+      && ('N' == 78) && ('O' == 79) && ('P' == 80) && ('Q' == 81) \
+      && ('R' == 82) && ('S' == 83) && ('T' == 84) && ('U' == 85) \
+      && ('V' == 86) && ('W' == 87) && ('X' == 88) && ('Y' == 89) \
+      && ('Z' == 90) && ('[' == 91) && ('\\' == 92) && (']' == 93) \
+      && ('^' == 94) && ('_' == 95) && ('a' == 97) && ('b' == 98) \
+      && ('c' == 99) && ('d' == 100) && ('e' == 101) && ('f' == 102) \
+      && ('g' == 103) && ('h' == 104) && ('i' == 105) && ('j' == 106) \
+      && ('k' == 107) && ('l' == 108) && ('m' == 109) && ('n' == 110) \
+      && ('o' == 111) && ('p' == 112) && ('q' == 113) && ('r' == 114) \
+      && ('s' == 115) && ('t' == 116) && ('u' == 117) && ('v' == 118) \
+      && ('w' == 119) && ('x' == 120) && ('y' == 121) && ('z' == 122) \
+      && ('{' == 123) && ('|' == 124) && ('}' == 125) && ('~' == 126))
+/* The character set is not based on ISO-646.  */
+#error "gperf generated tables don't work with this execution character set. Please report a bug to <bug-gperf@gnu.org>."
+#endif
+
+#line 1 "evrrul-gp.erf"
+
+typedef enum {
+	KEY_UNK,
+	/* actual keys */
+	KEY_FREQ,
+	KEY_UNTIL,
+	KEY_COUNT,
+	KEY_INTER,
+	KEY_WKST,
+	KEY_SCALE,
+	KEY_SHIFT,
+	/* by* specs */
+	BY_SEC,
+	BY_MIN,
+	BY_HOUR,
+	BY_WDAY,
+	BY_MDAY,
+	BY_YDAY,
+	BY_WEEK,
+	BY_MON,
+	BY_POS,
+	BY_EASTER,
+
+	/* weekdays */
+	WDAY_MIR,
+	WDAY_MON,
+	WDAY_TUE,
+	WDAY_WED,
+	WDAY_THU,
+	WDAY_FRI,
+	WDAY_SAT,
+	WDAY_SUN,
+} rrul_key_t;
+
+#line 47 "evrrul-gp.erf"
+struct rrul_key_cell_s {
+	const char *keystr;
+	rrul_key_t key;
+};
+/* maximum key range = 30, duplicates = 0 */
+
+#ifdef __GNUC__
+__inline
+#else
+#ifdef __cplusplus
+inline
+#endif
+#endif
+static unsigned int
+__evrrul_key_hash (register const char *str, register size_t len)
+{
+  static const unsigned char asso_values[] =
+    {
+      34, 34, 34, 34, 34, 34, 34, 34, 34, 34,
+      34, 34, 34, 34, 34, 34, 34, 34, 34, 34,
+      34, 34, 34, 34, 34, 34, 34, 34, 34, 34,
+      34, 34, 34, 34, 34, 34, 34, 34, 34, 34,
+      34, 34, 34, 34, 34, 34, 34, 34, 34, 34,
+      34, 34, 34, 34, 34, 34, 34, 34, 34, 34,
+      34, 34, 34, 34, 34,  5, 34, 25,  0,  5,
+      34, 34,  0, 10, 34, 34,  5,  0,  0, 34,
+      34, 34,  5,  0, 15,  0, 34,  5, 34,  0,
+      34, 34, 34, 34, 34, 34, 34, 34, 34, 34,
+      34, 34, 34, 34, 34, 34, 34, 34, 34, 34,
+      34, 34, 34, 34, 34, 34, 34, 34, 34, 34,
+      34, 34, 34, 34, 34, 34, 34, 34
+    };
+  register unsigned int hval = len;
+
+  switch (hval)
+    {
+      default:
+        hval += asso_values[(unsigned char)str[4]];
+      /*FALLTHROUGH*/
+      case 4:
+      case 3:
+        hval += asso_values[(unsigned char)str[2]];
+        break;
+    }
+  return hval;
+}
+
+const struct rrul_key_cell_s *
+__evrrul_key (register const char *str, register size_t len)
+{
+  enum
+    {
+      TOTAL_KEYWORDS = 17,
+      MIN_WORD_LENGTH = 4,
+      MAX_WORD_LENGTH = 10,
+      MIN_HASH_VALUE = 4,
+      MAX_HASH_VALUE = 33
+    };
+
+  static const struct rrul_key_cell_s wordlist[] =
+    {
+#line 57 "evrrul-gp.erf"
+      {"WKST", KEY_WKST},
+#line 63 "evrrul-gp.erf"
+      {"BYDAY", BY_WDAY},
+#line 62 "evrrul-gp.erf"
+      {"BYHOUR", BY_HOUR},
+#line 67 "evrrul-gp.erf"
+      {"BYMONTH", BY_MON},
+#line 61 "evrrul-gp.erf"
+      {"BYMINUTE", BY_MIN},
+#line 53 "evrrul-gp.erf"
+      {"FREQ", KEY_FREQ},
+#line 64 "evrrul-gp.erf"
+      {"BYMONTHDAY", BY_MDAY},
+#line 69 "evrrul-gp.erf"
+      {"BYEASTER", BY_EASTER},
+#line 65 "evrrul-gp.erf"
+      {"BYYEARDAY", BY_YDAY},
+#line 58 "evrrul-gp.erf"
+      {"SCALE", KEY_SCALE},
+#line 66 "evrrul-gp.erf"
+      {"BYWEEKNO", BY_WEEK},
+#line 55 "evrrul-gp.erf"
+      {"COUNT", KEY_COUNT},
+#line 68 "evrrul-gp.erf"
+      {"BYSETPOS", BY_POS},
+#line 54 "evrrul-gp.erf"
+      {"UNTIL", KEY_UNTIL},
+#line 56 "evrrul-gp.erf"
+      {"INTERVAL", KEY_INTER},
+#line 59 "evrrul-gp.erf"
+      {"SHIFT", KEY_SHIFT},
+#line 60 "evrrul-gp.erf"
+      {"BYSECOND", BY_SEC}
+    };
+
+  if (len <= MAX_WORD_LENGTH && len >= MIN_WORD_LENGTH)
+    {
+      register unsigned int key = __evrrul_key_hash (str, len);
+
+      if (key <= MAX_HASH_VALUE && key >= MIN_HASH_VALUE)
+        {
+          register const struct rrul_key_cell_s *resword;
+
+          switch (key - 4)
+            {
+              case 0:
+                resword = &wordlist[0];
+                goto compare;
+              case 1:
+                resword = &wordlist[1];
+                goto compare;
+              case 2:
+                resword = &wordlist[2];
+                goto compare;
+              case 3:
+                resword = &wordlist[3];
+                goto compare;
+              case 4:
+                resword = &wordlist[4];
+                goto compare;
+              case 5:
+                resword = &wordlist[5];
+                goto compare;
+              case 6:
+                resword = &wordlist[6];
+                goto compare;
+              case 9:
+                resword = &wordlist[7];
+                goto compare;
+              case 10:
+                resword = &wordlist[8];
+                goto compare;
+              case 11:
+                resword = &wordlist[9];
+                goto compare;
+              case 14:
+                resword = &wordlist[10];
+                goto compare;
+              case 16:
+                resword = &wordlist[11];
+                goto compare;
+              case 19:
+                resword = &wordlist[12];
+                goto compare;
+              case 21:
+                resword = &wordlist[13];
+                goto compare;
+              case 24:
+                resword = &wordlist[14];
+                goto compare;
+              case 26:
+                resword = &wordlist[15];
+                goto compare;
+              case 29:
+                resword = &wordlist[16];
+                goto compare;
+            }
+          return 0;
+        compare:
+          {
+            register const char *s = resword->keystr;
+
+            if (*str == *s && !strncmp (str + 1, s + 1, len - 1) && s[len] == '\0')
+              return resword;
+          }
+        }
+    }
+  return 0;
+}
